@@ -54,7 +54,7 @@ impl Cfg {
     /// of builder calls occurs over a run (a setter must not depend on what was set before it).
     pub fn builder(&self) -> grenad::WriterBuilder {
         let mut b = Writer::builder();
-        let perm = (self.codec as usize + self.level as usize + self.block_size + self.interval + self.levels as usize) % 5;
+        let perm = (self.codec as usize).wrapping_add(self.level as usize).wrapping_add(self.block_size).wrapping_add(self.interval).wrapping_add(self.levels as usize) % 5;
         for step in 0..5 {
             match (step + perm) % 5 {
                 0 => {
@@ -76,8 +76,16 @@ impl Cfg {
         }
         b
     }
+    /// TLC integers are 32-bit: sizes above 2^30 are logged as 2^30 (a block size that large means
+    /// "never cut" either way)
+    pub fn logged_block_size(&self) -> usize {
+        self.block_size.min(1 << 30)
+    }
     pub fn json(&self) -> serde_json::Value {
-        serde_json::to_value(self).unwrap()
+        let mut c = self.clone();
+        c.block_size = self.logged_block_size();
+        c.interval = self.interval.min(1 << 30);
+        serde_json::to_value(&c).unwrap()
     }
 }
 
